@@ -18,7 +18,8 @@ COQ_HEADER = ("From stdpp Require Import gmap strings.\nFrom SK Require Import l
               "Local Open Scope string_scope.\n")
 SHARD = 150
 RULE = ("operation histories over k networks. Old language (add generated/explicit id, remove reaction, remove species +/- prune, "
-        "merge +/- prefix, copy, assign/set molecule labels): exhaustive short suffixes after fixed preambles + seeded random histories. "
+        "merge +/- prefix, copy, assign/set molecule labels): exhaustive short suffixes after fixed preambles + seeded random histories; "
+        "ALL sequences of depth 3 (quick) / 4 (thorough) over a reduced 9-op alphabet (3 species, 2 rules, 2 networks, a caller-chosen id that looks generated). "
         "Extended language (kinds h2-*: every input form of add_rxn, sides given as RXNSide objects of another network / caller-held objects "
         "edited afterwards, duck-typed merge, coefficient edits through returned edges, all queries: __contains__, __len__, iteration, "
         "species_list, get_edge + HyperEdge views, neighbors, paths, incidence_matrix sparse/dense + alias, get_mol; name overlaps "
@@ -30,7 +31,7 @@ RULE = ("operation histories over k networks. Old language (add generated/explic
         "Repr cases (kinds h4-*, round 5): a history of the extended language, then repr() of every network, stored reaction and caller-held side "
         "(ids with digits in front / in the middle / none / empty, equal sort keys, labels that are strings or integers). "
         "A case is non-trivial when at least two ops succeed and a remove/merge/copy op occurs; distinct = distinct op lists")
-EXHAUSTIVE = {"quick": False, "thorough": False}
+EXHAUSTIVE = {"quick": True, "thorough": True}     # exh-empty (depth 2, 51 ops) and exh-reduced (depth 3 / 4, 9 ops) are exhaustive sub-spaces
 EXPLANATION = ("Theorems: invariant (indices exact, species = occurring (+kept), mol within species, ids unique, order list = key set) "
                "for every reachable world of the old and of the extended history language; frame/independence of networks and of caller-held "
                "side objects; queries never change the state; refinement to the id->reaction spec; exact label semantics (labels only for present "
@@ -376,6 +377,21 @@ def alphabet():
     return ops
 
 
+def reduced_alphabet():
+    """9 ops over 3 species / 2 rules / 2 networks covering every operation of the property text (add with generated and with a
+    caller-chosen look-alike id, remove reaction, remove species with and without pruning, merge, copy): small enough for
+    EXHAUSTIVE depth 3 (quick, 729 + shorter) and depth 4 (thorough, 6 561 + shorter) — the property's own quantifier."""
+    return [["add", 0, [["A", 1]], [["B", 1]], "r", None],
+            ["add", 0, [["A", 1], ["B", 1]], [["C", 2]], "q", None],
+            ["add", 0, [["C", 1]], [["A", 1]], "r", "r_1"],
+            ["rmrxn", 0, "r_1"],
+            ["rmsp", 0, "A", True],
+            ["rmsp", 0, "B", False],
+            ["merge", 0, 1, True],
+            ["copy", 0, 1],
+            ["add", 1, [["B", 1]], [["C", 1]], "r", None]]
+
+
 def _rand_hist(rng, maxlen, nsp, n):
     sp = ["A", "B", "C", "D", "E", "F2", "G_1"][:nsp]
     rules = ["r", "q", "r_1", ""]
@@ -426,9 +442,14 @@ def gen_cases(tier, rng):
         for seq in itertools.product(A, repeat=2):
             cases.append(dict(kind="exh-pre", n=2, ops=PRE + [list(o) for o in seq]))
         triples = list(itertools.product(A, repeat=3))
-        for seq in rng.sample(triples, 30000):
+        for seq in rng.sample(triples, 24000):      # round 5: 30000 -> 24000 to make room for the h3 / h4 kinds
             cases.append(dict(kind="sample-empty3", n=2, ops=[list(o) for o in seq]))
         nrand, maxlen = 3500, 60      # 6000 histories of <= 60 ops held ~3.5 GB of observables in the main process
+    # the property's own quantifier: ALL sequences up to depth 3 (quick) / 4 (thorough) over the reduced alphabet (a sequence of
+    # depth d also observes all its prefixes: only the full-depth sequences are generated)
+    RA = reduced_alphabet()
+    for seq in itertools.product(RA, repeat=3 if tier == "quick" else 4):
+        cases.append(dict(kind="exh-reduced", n=2, ops=[list(o) for o in seq]))
     for k in range(nrand):
         cases.append(dict(kind="random", n=3, ops=_rand_hist(rng, maxlen, rng.choice([3, 4, 7]), 3)))
     from ..gen import c15_ext
